@@ -33,7 +33,7 @@ class CsrEvMonWorld(World):
 
     def gen_config(self, rng, prop):
         dw = rng.choice([4, 8, 16, 32])
-        n = rng.range(0, 3 * dw if dw <= 8 else 20)
+        n = rng.range(0, 3 * dw if (dw <= 8 or rng.chance(0.15)) else 20)
         return {"dw": dw, "al": rng.choice([0, 0, 1, 2]),
                 "srcs": [rng.choice(TRIGGERS) for _ in range(n)],
                 "trigger": rng.choice(TRIGGERS),
